@@ -217,6 +217,9 @@ def sub(a, b):
     return add(a, neg(as_term(b)))
 
 
+KEEP_ZERO_FACTOR = False      # see mul(): set only while building terms for an extended-real (totality) analysis
+
+
 def mul(*xs):
     xs = [as_term(x) for x in xs]
     sort = 'R' if any(x.sort == 'R' for x in xs) else 'I'
@@ -244,6 +247,10 @@ def mul(*xs):
                 flat.append(y)
     c *= sign
     if c == 0:
+        if KEEP_ZERO_FACTOR and flat and sort == 'R':
+            # extended-real analyses (C18): 0 * x is NOT 0 when x may be infinite (IEEE: 0 * inf = nan); keep the product
+            flat.sort(key=_uid)
+            return T('mul', (const(0, sort),) + tuple(flat), sort)
         return const(0, sort)
     if c < 0:
         # canonical sign: a negative coefficient is pushed into the first sum factor, -a*(x - y) == a*(y - x)
